@@ -1075,7 +1075,10 @@ fn store_run_output(run_output: &RunOutput, run_path: &path::Path) -> Result<(),
     let bw = BufWriter::new(run_result_file);
     let mut encoder = zstd::stream::write::Encoder::new(bw, 3)?;
     serde_json::to_writer(&mut encoder, run_output)?;
-    encoder.finish()?;
+    // flush explicitly: dropping the BufWriter would swallow a write error, and the run
+    // pointer must not advance over a result file that is not completely written
+    let mut bw = encoder.finish()?;
+    io::Write::flush(&mut bw)?;
     Ok(())
 }
 
